@@ -324,6 +324,11 @@ func runBreakerConc(fs *flag.FlagSet, args []string) {
 		c := bcfg{thr: []float64{0.5, 0.3, 0.8}[rng.Intn(3)], minReq: int64(1 + rng.Intn(2)), trial: int64(2 + rng.Intn(4)), open: int64(5 + rng.Intn(10)),
 			interval: int64(2 + rng.Intn(5))}
 		c.window = c.interval * int64(2+rng.Intn(3))
+		if rng.Intn(3) == 0 {
+			// realistic magnitudes: microseconds ... hours (the values are nanoseconds); tick steps scale with the configuration
+			scale := []int64{1000, 1000000, 1000000000, 60000000000, 3600000000000}[rng.Intn(5)]
+			c.trial, c.open, c.interval, c.window = c.trial*scale, c.open*scale, c.interval*scale, c.window*scale
+		}
 		if family == "c10" {
 			c.thr = 1 // never trips: every report exercises the window
 			c.minReq = 1 << 40
